@@ -9,7 +9,10 @@
 //     `A::$p`, `A::$p = v`, `A::m()`, `self::`, `static::`, `parent::m()`) and for
 //     each of the two receiver arms of its type switch (`*data.ThisValue`,
 //     `*data.ClassValue`) which modifier test the arm performs before it touches
-//     the member: none, `isCallerInClassHierarchy(ctx, T)` for which modifiers
+//     the member: none, `canAccessProperty(ctx, recv.Class, property)` /
+//     `canAccessMethod(ctx, recv.Class, name, method)` / `canAccessMember(ctx, foundClass, m)`
+//     (node/visibility.go: PHP's rule on the lexical class and the declaring class) for which
+//     modifiers, the older `isCallerInClassHierarchy(ctx, T)` for which modifiers
 //     and against which class, "non-public ⇒ error", "private ⇒ error";
 //   - `boundary : Boundary → BKind`: what each typed boundary does with the
 //     declared type (`Is` or error / `null` let through / nothing).
@@ -23,6 +26,7 @@ package main
 import (
 	"fmt"
 	"go/ast"
+	"go/printer"
 	"go/token"
 	"os"
 	"sort"
@@ -111,9 +115,54 @@ func returnsError(stmts []ast.Stmt) bool {
 
 type guard struct {
 	priv, prot bool
-	kind       string // hier | deny
-	target     string // hier: second argument of isCallerInClassHierarchy
+	kind       string // hier | lex | deny
+	target     string // hier: second argument of isCallerInClassHierarchy; lex: the class argument of canAccess…
 	pos        token.Pos
+}
+
+// modRecv: the expression whose GetModifier() a condition tests ("" when there are several or none)
+func modRecv(e ast.Expr) string {
+	recv, many := "", false
+	ast.Inspect(e, func(n ast.Node) bool {
+		if c, ok := n.(*ast.CallExpr); ok {
+			if sel, ok := c.Fun.(*ast.SelectorExpr); ok && sel.Sel.Name == "GetModifier" {
+				r := exprString(sel.X)
+				if recv != "" && recv != r {
+					many = true
+				}
+				recv = r
+			}
+		}
+		return true
+	})
+	if many {
+		return ""
+	}
+	return recv
+}
+
+// lexGuard: `canAccessProperty(ctx, X.Class, P)`, `canAccessMethod(ctx, X.Class, name, M)` or
+// `canAccessMember(ctx, C, M.GetModifier())` where P / M is the member whose modifier the enclosing condition
+// tests; returns the class argument.
+func lexGuard(call *ast.CallExpr, member string) (target string, ok bool) {
+	if member == "" || len(call.Args) < 3 || exprString(call.Args[0]) != "ctx" {
+		return "", false
+	}
+	switch exprString(call.Fun) {
+	case "canAccessProperty":
+		if len(call.Args) == 3 && exprString(call.Args[2]) == member {
+			return exprString(call.Args[1]), true
+		}
+	case "canAccessMethod":
+		if len(call.Args) == 4 && exprString(call.Args[3]) == member {
+			return exprString(call.Args[1]), true
+		}
+	case "canAccessMember":
+		if len(call.Args) == 3 && exprString(call.Args[2]) == member+".GetModifier()" {
+			return exprString(call.Args[1]), true
+		}
+	}
+	return "", false
 }
 
 // guardsIn collects the modifier guards of a statement list (recursively through blocks and if-chains).
@@ -138,10 +187,19 @@ func guardsIn(stmts []ast.Stmt, out *[]guard) {
 						continue
 					}
 					call, ok := u.X.(*ast.CallExpr)
-					if !ok || exprString(call.Fun) != "isCallerInClassHierarchy" || len(call.Args) != 2 {
+					if !ok || !returnsError(inner.Body.List) {
 						continue
 					}
-					if exprString(call.Args[0]) != "ctx" || !returnsError(inner.Body.List) {
+					if t, isLex := lexGuard(call, modRecv(s.Cond)); isLex {
+						g.kind, g.target = "lex", t
+						*out = append(*out, g)
+						found = true
+						continue
+					}
+					if exprString(call.Fun) != "isCallerInClassHierarchy" || len(call.Args) != 2 {
+						continue
+					}
+					if exprString(call.Args[0]) != "ctx" {
 						continue
 					}
 					g.kind, g.target = "hier", exprString(call.Args[1])
@@ -258,6 +316,11 @@ var arrowEffects = map[string]bool{
 
 // classify one arm of an `->` style node.
 func classifyArrow(where string, body []ast.Stmt, sv string) string {
+	return classifyArrowCtx(where, body, sv, false)
+}
+
+// needCtx: the node has already been seen to require a class context (`self::`, `static::`)
+func classifyArrowCtx(where string, body []ast.Stmt, sv string, needCtx bool) string {
 	if body == nil {
 		note("%s: arm not found", where)
 		return ".shapeChanged"
@@ -280,7 +343,7 @@ func classifyArrow(where string, body []ast.Stmt, sv string) string {
 			return ".shapeChanged"
 		}
 		kind = g.kind
-		if g.kind == "hier" {
+		if g.kind == "hier" || g.kind == "lex" {
 			if target != "" && target != g.target {
 				note("%s: guards test different classes (%s, %s)", where, target, g.target)
 				return ".shapeChanged"
@@ -309,6 +372,18 @@ func classifyArrow(where string, body []ast.Stmt, sv string) string {
 		}
 		note("%s: deny guard for protected only", where)
 		return ".shapeChanged"
+	}
+	if kind == "lex" {
+		// the class handed to canAccess…: the receiver's class (the helper walks up to the declaring class) or
+		// the class in which the static method was found
+		switch {
+		case sv != "" && target == sv+".Class":
+		case sv == "" && (target == "classStmt" || target == "foundClass"):
+		default:
+			note("%s: canAccess… class argument %q not recognised", where, target)
+			return ".shapeChanged"
+		}
+		return fmt.Sprintf(".lexical %s %s %s", b(priv), b(prot), b(needCtx))
 	}
 	tdecl := ""
 	switch {
@@ -421,7 +496,7 @@ func classifyKeyword(where string, fd *ast.FuncDecl) string {
 	if len(gs) == 0 {
 		return ".classCtxOnly"
 	}
-	return classifyArrow(where, fd.Body.List, "")
+	return classifyArrowCtx(where, fd.Body.List, "", true)
 }
 
 func classifyParent(where string, fd *ast.FuncDecl) string {
@@ -500,6 +575,170 @@ func classifyStaticProp(where string, fd *ast.FuncDecl) string {
 		return ".unchecked"
 	}
 	return classifyArrow(where, fd.Body.List, "")
+}
+
+// foreach over an object: the callback handed to RangeProperties must skip every property the executing code
+// may not see — `if prop, ok := array.GetPropertyStmt(i); ok && !canAccessProperty(ctx, array.Class, prop) { return true }`
+// — before it binds the loop variables.
+func classifyIterate(fd *ast.FuncDecl) string {
+	var cb *ast.FuncLit
+	ast.Inspect(fd.Body, func(n ast.Node) bool {
+		if c, ok := n.(*ast.CallExpr); ok && exprString(c.Fun) == "array.RangeProperties" && len(c.Args) == 1 {
+			if fl, ok := c.Args[0].(*ast.FuncLit); ok && cb == nil {
+				cb = fl
+			}
+		}
+		return true
+	})
+	if cb == nil {
+		note("foreach.go foreachClassValue: RangeProperties callback not found")
+		return ".shapeChanged"
+	}
+	bind := firstEffect(cb.Body.List, map[string]bool{".SetVariableValue": true, ".SetValue": true})
+	for _, st := range cb.Body.List {
+		is, ok := st.(*ast.IfStmt)
+		if !ok || is.Init == nil || is.Else != nil {
+			continue
+		}
+		as, ok := is.Init.(*ast.AssignStmt)
+		if !ok || len(as.Lhs) != 2 || len(as.Rhs) != 1 {
+			continue
+		}
+		lk, ok := as.Rhs[0].(*ast.CallExpr)
+		if !ok || exprString(lk.Fun) != "array.GetPropertyStmt" {
+			continue
+		}
+		prop, okv := exprString(as.Lhs[0]), exprString(as.Lhs[1])
+		be, ok := is.Cond.(*ast.BinaryExpr)
+		if !ok || be.Op != token.LAND || exprString(be.X) != okv {
+			continue
+		}
+		u, ok := be.Y.(*ast.UnaryExpr)
+		if !ok || u.Op != token.NOT {
+			continue
+		}
+		call, ok := u.X.(*ast.CallExpr)
+		if !ok || exprString(call.Fun) != "canAccessProperty" || len(call.Args) != 3 ||
+			exprString(call.Args[0]) != "ctx" || exprString(call.Args[1]) != "array.Class" || exprString(call.Args[2]) != prop {
+			continue
+		}
+		// the body skips the element: a single `return true`
+		if len(is.Body.List) != 1 {
+			continue
+		}
+		ret, ok := is.Body.List[0].(*ast.ReturnStmt)
+		if !ok || len(ret.Results) != 1 || exprString(ret.Results[0]) != "true" {
+			continue
+		}
+		if bind != token.NoPos && bind < is.Pos() {
+			note("foreach.go foreachClassValue: the loop variables are bound before the visibility test")
+			return ".shapeChanged"
+		}
+		return ".lexical true true false"
+	}
+	if containsCall(fd.Body, ".GetModifier") || containsCall(fd.Body, "canAccessProperty") {
+		note("foreach.go foreachClassValue: a modifier test appeared; shape not recognised")
+		return ".shapeChanged"
+	}
+	return ".unchecked"
+}
+
+// helperShapes: node/visibility.go as the model reads it.
+//
+//	canAccessMember:   non-private/protected ⇒ true; scope := scopeClassOf(ctx); scope == nil ⇒ false;
+//	                   private ⇒ `scope.GetName() == declClass.GetName()`; else isClassInHierarchy(…, scope, declClass)
+//	isClassInHierarchy: same name ⇒ true, then two extends-chain loops
+//	scopeClassOf:      `*data.ClassMethodContext` ⇒ SelfClass when set, else Class
+//	canAccessProperty / canAccessMethod: public ⇒ true, else canAccessDeclared(ctx, class, modifier, …)
+//	canAccessDeclared: first class up the chain that declares the member, handed to canAccessMember
+//	ClassMethod.Call:  first statement records `cmc.SelfClass = lexicalClassOfMethod(…)`
+//	LambdaExpression.Call: the closure's context inherits SelfClass
+//
+// Before the repair the one helper was isCallerInClassHierarchy in call_object_method.go.
+func helperShapes(files map[string]*ast.File, fn func(file, recv, name string) *ast.FuncDecl) {
+	loopsOf := func(h *ast.FuncDecl) int {
+		loops := 0
+		ast.Inspect(h.Body, func(n ast.Node) bool {
+			if _, ok := n.(*ast.ForStmt); ok {
+				loops++
+			}
+			return true
+		})
+		return loops
+	}
+	if files["visibility.go"] == nil {
+		if h := fn("call_object_method.go", "", "isCallerInClassHierarchy"); h != nil && loopsOf(h) != 2 {
+			note("isCallerInClassHierarchy: expected two extends-chain loops, found %d", loopsOf(h))
+		}
+		return
+	}
+	if h := fn("visibility.go", "", "isClassInHierarchy"); h != nil {
+		if loopsOf(h) != 2 {
+			note("isClassInHierarchy: expected two extends-chain loops, found %d", loopsOf(h))
+		}
+		if len(h.Body.List) == 0 || !strings.Contains(nodeText(h.Body.List[0]), "callerClass.GetName() == targetClass.GetName()") {
+			note("isClassInHierarchy: the same-class test is not the first statement")
+		}
+	}
+	if h := fn("visibility.go", "", "canAccessMember"); h != nil {
+		txt := nodeText(h.Body)
+		for _, want := range []string{
+			"modifier != data.ModifierPrivate && modifier != data.ModifierProtected",
+			"scope := scopeClassOf(ctx)",
+			"scope == nil",
+			"return scope.GetName() == declClass.GetName()",
+			"return isClassInHierarchy(ctx.GetVM(), scope, declClass)",
+		} {
+			if !strings.Contains(txt, want) {
+				note("canAccessMember: %q not found", want)
+			}
+		}
+		if len(h.Body.List) != 5 {
+			note("canAccessMember: expected 5 statements, found %d", len(h.Body.List))
+		}
+	}
+	if h := fn("visibility.go", "", "scopeClassOf"); h != nil {
+		body := caseBody(h, "*data.ClassMethodContext")
+		if body == nil || !strings.Contains(nodeText(&ast.BlockStmt{List: body}), "return c.SelfClass") ||
+			!strings.Contains(nodeText(&ast.BlockStmt{List: body}), "return c.Class") {
+			note("scopeClassOf: the ClassMethodContext arm does not return SelfClass / Class")
+		}
+	}
+	for _, name := range []string{"canAccessProperty", "canAccessMethod"} {
+		if h := fn("visibility.go", "", name); h != nil {
+			txt := nodeText(h.Body)
+			if !strings.Contains(txt, ".GetModifier() == data.ModifierPublic") || !strings.Contains(txt, "return canAccessDeclared(ctx, class, ") || len(h.Body.List) > 3 {
+				note("%s: shape not recognised", name)
+			}
+		}
+	}
+	if h := fn("visibility.go", "", "canAccessDeclared"); h != nil {
+		txt := nodeText(h.Body)
+		for _, want := range []string{"decl := class", "for decl != nil && !declares(decl)", "decl = parentClassOf(vm, decl)", "if canAccessMember(ctx, decl, modifier)"} {
+			if !strings.Contains(txt, want) {
+				note("canAccessDeclared: %q not found", want)
+			}
+		}
+	}
+	if h := fn("class.go", "*ClassMethod", "Call"); h != nil {
+		if len(h.Body.List) == 0 || !strings.Contains(nodeText(h.Body.List[0]), "cmc.SelfClass = lexicalClassOfMethod(ctx.GetVM(), cmc.Class, m)") {
+			note("ClassMethod.Call: the lexical class is not recorded by the first statement")
+		}
+	}
+	if h := fn("lambda.go", "*LambdaExpression", "Call"); h != nil {
+		if !strings.Contains(nodeText(h.Body), "cmc.SelfClass = defineClassCtx.SelfClass") {
+			note("LambdaExpression.Call: the closure context does not inherit SelfClass")
+		}
+	}
+}
+
+// nodeText: source text of a node, whitespace normalised
+func nodeText(n ast.Node) string {
+	var sb strings.Builder
+	if err := printer.Fprint(&sb, token.NewFileSet(), n); err != nil {
+		return ""
+	}
+	return strings.Join(strings.Fields(sb.String()), " ")
 }
 
 // ---------------------------------------------------------------- boundaries
@@ -588,12 +827,57 @@ func paramSetValueKind(fd *ast.FuncDecl) string {
 	is := hasIsAccept(fd.Body.List) || hasIsGuard(fd.Body.List)
 	null := hasNullBypass(fd.Body.List)
 	switch {
+	case is && null && nullBypassOnlyWhenAllowed(fd):
+		return ".exact"
 	case is && null:
 		return ".nullAlso"
 	case is:
 		return ".exact"
 	}
 	return ".unchecked"
+}
+
+// nullBypassOnlyWhenAllowed: every null bypass of Parameter.SetValue has the condition `isNull && p.nullAllowed()`
+// and nullAllowed is exactly "the default value is null, or the parameter has no source position (built-in
+// function)" — neither holds for a parameter declared in a script without a null default, which is what the
+// parameter boundaries of the model are about.
+var nullAllowedFn *ast.FuncDecl
+
+func nullBypassOnlyWhenAllowed(fd *ast.FuncDecl) bool {
+	ok := true
+	seen := false
+	ast.Inspect(fd.Body, func(n ast.Node) bool {
+		s, isIf := n.(*ast.IfStmt)
+		if !isIf || s.Init == nil {
+			return true
+		}
+		a, isA := s.Init.(*ast.AssignStmt)
+		if !isA || len(a.Rhs) != 1 || len(a.Lhs) != 2 {
+			return true
+		}
+		ta, isTA := a.Rhs[0].(*ast.TypeAssertExpr)
+		if !isTA || ta.Type == nil || exprString(ta.Type) != "*data.NullValue" {
+			return true
+		}
+		seen = true
+		if nodeText(s.Cond) != exprString(a.Lhs[1])+" && p.nullAllowed()" {
+			ok = false
+		}
+		return true
+	})
+	if !seen || !ok {
+		return false
+	}
+	if nullAllowedFn == nil {
+		note("Parameter.nullAllowed not found")
+		return false
+	}
+	want := "{ switch p.DefaultValue.(type) { case *NullLiteral, *data.NullValue: return true } return p.Node == nil || p.from == nil }"
+	if got := nodeText(nullAllowedFn.Body); got != want {
+		note("Parameter.nullAllowed: shape not recognised: %s", got)
+		return false
+	}
+	return true
 }
 
 func caseBody(fd *ast.FuncDecl, ty string) []ast.Stmt {
@@ -629,6 +913,10 @@ func caseBody(fd *ast.FuncDecl, ty string) []ast.Stmt {
 // enforcement functions: a call of one of these IS the test of an enforcement point
 var enforcementFns = map[string]bool{
 	"isCallerInClassHierarchy":             true,
+	"canAccessMember":                      true,
+	"canAccessProperty":                    true,
+	"canAccessMethod":                      true,
+	"canAccessDeclared":                    true,
 	"ValidateConcreteClassAbstractMethods": true,
 	"IsAbstractClassStmt":                  true,
 }
@@ -677,8 +965,15 @@ func memoScan(files map[string]*ast.File, typeTests map[string]bool) {
 				if !(enforcementFns[callee] || (isTypeTest(c) && typeTests[fname])) {
 					return true
 				}
-				for _, a := range stack {
+				for i, a := range stack {
 					if _, lit := a.(*ast.FuncLit); lit {
+						// a literal handed directly to RangeProperties is the body of a synchronous loop over
+						// the object's properties: it runs, for every element, as part of this evaluation
+						if i > 0 {
+							if pc, ok := stack[i-1].(*ast.CallExpr); ok && strings.HasSuffix(exprString(pc.Fun), ".RangeProperties") {
+								continue
+							}
+						}
 						note("%s %s: %s is called inside a function literal (deferred or memoised enforcement)", file, fname, callee)
 						break
 					}
@@ -843,29 +1138,13 @@ func main() {
 	}
 	// foreach over an object: does foreachClassValue look at modifiers at all?
 	if fd := fn("foreach.go", "*ForeachStatement", "foreachClassValue"); fd != nil {
-		if containsCall(fd.Body, ".GetModifier") {
-			note("foreach.go foreachClassValue: a modifier test appeared; shape not recognised")
-			both("iterate", ".shapeChanged")
-		} else {
-			both("iterate", ".unchecked")
-		}
+		both("iterate", classifyIterate(fd))
 	} else {
 		both("iterate", ".shapeChanged")
 	}
 
-	// the helper itself: what the model's `inHierarchy` mirrors
-	if h := fn("call_object_method.go", "", "isCallerInClassHierarchy"); h != nil {
-		loops := 0
-		ast.Inspect(h.Body, func(n ast.Node) bool {
-			if _, ok := n.(*ast.ForStmt); ok {
-				loops++
-			}
-			return true
-		})
-		if loops != 2 {
-			note("isCallerInClassHierarchy: expected two extends-chain loops, found %d", loops)
-		}
-	}
+	// the helpers themselves: what the model's `inHierarchy` / `lexRule` mirror
+	helperShapes(files, fn)
 
 	// ---- boundaries
 	type bentry struct{ name, kind string }
@@ -901,6 +1180,9 @@ func main() {
 		}
 	} else {
 		bounds = append(bounds, bentry{"staticStore", ".shapeChanged"})
+	}
+	if f := files["function.go"]; f != nil {
+		nullAllowedFn = ex.FuncDecl(f, "*Parameter", "nullAllowed")
 	}
 	pk := paramSetValueKind(fn("function.go", "*Parameter", "SetValue"))
 	// functions, static methods and constructors bind through paramSetValue → `case *Parameter:` → param.SetValue
